@@ -216,7 +216,7 @@ pub fn handle(op: &str, a: &[&str]) -> Option<Resp> {
                     }
                 }
             }
-            Some(Resp::with(format!("{} L:{} S:{}", es(&text), show_lossy(&l), sv), fail))
+            Some(Resp::with(format!("{} L:{} S:{} canon={}", es(&text), show_lossy(&l), sv, ebool(canon_doc(&d))), fail))
         }
         ("deb.lhist", [p, ops]) => {
             let start = dec_para(p)?;
